@@ -152,9 +152,13 @@ def run_tlc(module: str, cfg: str, *, workdir: pathlib.Path, env=None, workers=N
     if simulate:
         cmd += ["-simulate", simulate]
     cmd += list(extra)
-    cfgp = pathlib.Path(cfg)
-    if not cfgp.is_absolute():
-        cfgp = SPEC / cfg
+    if "\n" in cfg:  # cfg given as text
+        cfgp = workdir / f"{module}.cfg"
+        cfgp.write_text(cfg)
+    else:
+        cfgp = pathlib.Path(cfg)
+        if not cfgp.is_absolute():
+            cfgp = SPEC / cfg
     cmd += ["-config", str(cfgp), str(SPEC / f"{module}.tla")]
     e = dict(os.environ)
     e.pop("JAVA_TOOL_OPTIONS", None)
@@ -197,6 +201,43 @@ def run_tlc(module: str, cfg: str, *, workdir: pathlib.Path, env=None, workers=N
         if simulate is None:
             raise MachineryError(f"TLC failed on {module}/{cfg} (rc={p.returncode}): see {workdir/'tlc.out'}\n" + out[-1500:])
     return res
+
+
+def cfg_text(consts: dict, subst: dict = None, invariants=(), spec="Spec", postcondition=None, properties=(),
+             constraint=None, view=None):
+    """Materialise a TLC config: consts maps names to python values (sets of str/int -> TLA set literals),
+    subst maps constant names to definitions in the module (`C <- Def`)."""
+    def lit(v):
+        if isinstance(v, bool):
+            return "TRUE" if v else "FALSE"
+        if isinstance(v, int):
+            return str(v)
+        if isinstance(v, str):
+            return json.dumps(v)
+        if isinstance(v, (set, frozenset, list, tuple)):
+            return "{" + ", ".join(lit(x) for x in (sorted(v, key=str) if isinstance(v, (set, frozenset)) else v)) + "}"
+        raise MachineryError(f"cannot write {v!r} into a cfg")
+    lines = []
+    if spec:
+        lines.append(f"SPECIFICATION {spec}")
+    if consts or subst:
+        lines.append("CONSTANTS")
+        for k, v in (consts or {}).items():
+            lines.append(f"  {k} = {lit(v)}")
+        for k, v in (subst or {}).items():
+            lines.append(f"  {k} <- {v}")
+    for inv in invariants:
+        lines.append(f"INVARIANT {inv}")
+    for pr in properties:
+        lines.append(f"PROPERTY {pr}")
+    if constraint:
+        lines.append(f"CONSTRAINT {constraint}")
+    if view:
+        lines.append(f"VIEW {view}")
+    if postcondition:
+        lines.append(f"POSTCONDITION {postcondition}")
+    lines.append("CHECK_DEADLOCK FALSE")
+    return "\n".join(lines) + "\n"
 
 
 def read_ndjson(path):
@@ -313,12 +354,22 @@ class Ctx:
         self._distinct = set()
 
     # ---- TLC wrappers
-    def tlc_check(self, module, cfg, name=None, must_cover=(), **kw):
-        name = name or cfg.replace(".cfg", "")
-        r = run_tlc(module, cfg, workdir=self.dir / f"tlc_{name}", coverage=True, **kw)
+    def _name(self, module, cfg, name):
+        if name:
+            return name
+        if "\n" in cfg:
+            self._n = getattr(self, "_n", 0) + 1
+            return f"{module}_{self._n}"
+        return cfg.replace(".cfg", "")
+
+    def tlc_check(self, module, cfg, name=None, must_cover=(), coverage=True, min_states=1, min_depth=0, **kw):
+        """Spec |= P.  Anti-vacuity: with coverage on, every action in must_cover has to be taken; in any case the
+        run must reach min_states distinct states and depth min_depth (staged lattices: the leaves are at the last stage)."""
+        name = self._name(module, cfg, name)
+        r = run_tlc(module, cfg, workdir=self.dir / f"tlc_{name}", coverage=coverage, **kw)
         self.cov["states"] += r["distinct"]
         self.cov["transitions"] += r["states"]
-        self.cov["tlc_runs"].append(dict(module=module, cfg=cfg, states=r["distinct"], generated=r["states"],
+        self.cov["tlc_runs"].append(dict(module=module, cfg=cfg if "\n" not in cfg else name, states=r["distinct"], generated=r["states"],
                                          depth=r["depth"], wall_s=round(r["wall"], 1),
                                          coverage={k: v for k, v in r["coverage"].items()}))
         if not r["ok"]:
@@ -326,14 +377,18 @@ class Ctx:
             path = self.replay_file(dict(kind="spec", module=module, cfg=cfg, invariant=inv,
                                          tlc_output_tail=r["out"][-6000:]))
             self.violation(f"spec:{module}:{inv}", f"TLC: {inv} violated on the specification ({module}/{cfg})", path)
-        for a in must_cover:
-            if r["coverage"].get(a, 0) == 0:
-                raise MachineryError(f"vacuous: action {a} never taken in {module}/{cfg}")
+        if coverage:
+            for a in must_cover:
+                if r["coverage"].get(a, 0) == 0:
+                    raise MachineryError(f"vacuous: action {a} never taken in {module}/{cfg}")
+        if r["ok"] and (r["distinct"] < min_states or r["depth"] < min_depth):
+            raise MachineryError(f"vacuous: {module}/{cfg} reached {r['distinct']} states, depth {r['depth']} "
+                                 f"(need {min_states}, {min_depth})")
         return r
 
     def tlc_emit(self, module, cfg, name=None, env=None, **kw):
         """Run an emission config; the module writes IOEnv.OUT (ndjson). Returns the rows."""
-        name = name or cfg.replace(".cfg", "")
+        name = self._name(module, cfg, name)
         out = self.dir / f"{name}.obligations.ndjson"
         e = dict(env or {})
         e["OUT"] = str(out)
@@ -342,8 +397,8 @@ class Ctx:
             raise MachineryError(f"emission {module}/{cfg} failed: {r['out'][-1500:]}")
         self.cov["states"] += r["distinct"]
         self.cov["transitions"] += r["states"]
-        self.cov["tlc_runs"].append(dict(module=module, cfg=cfg, states=r["distinct"], generated=r["states"],
-                                         wall_s=round(r["wall"], 1), role="emit"))
+        self.cov["tlc_runs"].append(dict(module=module, cfg=cfg if "\n" not in cfg else name, states=r["distinct"],
+                                         generated=r["states"], wall_s=round(r["wall"], 1), role="emit"))
         if not out.exists():
             raise MachineryError(f"emission {module}/{cfg} wrote nothing")
         return read_ndjson(out)
@@ -353,7 +408,7 @@ class Ctx:
         'oid').  The trace spec consumes one line per step, prints <<"VERDICT", oid, clause>> for every line it
         does not accept, and its POSTCONDITION requires that all lines were consumed.
         Returns {oid: clause} for rejected lines."""
-        name = name or cfg.replace(".cfg", "")
+        name = self._name(module, cfg, name)
         if not rows:
             return {}
         tf = self.dir / f"{name}.trace.ndjson"
@@ -371,8 +426,8 @@ class Ctx:
         if not m or int(m.group(1)) != len(rows):
             raise MachineryError(f"trace validation {module}/{cfg}: consumed {m.group(1) if m else '?'} of {len(rows)} lines")
         self.cov["traces_validated_against_impl"] += len(rows)
-        self.cov["tlc_runs"].append(dict(module=module, cfg=cfg, states=r["distinct"], wall_s=round(r["wall"], 1),
-                                         role="validate", lines=len(rows), rejected=len(bad)))
+        self.cov["tlc_runs"].append(dict(module=module, cfg=cfg if "\n" not in cfg else name, states=r["distinct"],
+                                         wall_s=round(r["wall"], 1), role="validate", lines=len(rows), rejected=len(bad)))
         return bad
 
     def pmap(self, fn, items, **kw):
